@@ -404,6 +404,20 @@ def run_case(rec, inp):
         except Exception as e:
             rec.violation("C05:raises:exact", "hierArc raised with kwargs_fixed_cosmo: %r" % (e,), dict(short, fixed={fk: val}))
 
+    # ---- a fixed dictionary carrying a key the model does NOT use (a dictionary shared between runs of different models): it must not enter
+    stray = {"FLCDM": {"ok": 0.12, "w": -0.7}, "FwCDM": {"ok": 0.12, "wa": 0.4}, "w0waCDM": {"ok": 0.12, "w": -0.7}, "oLCDM": {"w0": -0.7, "wa": 0.4, "w": -0.6}}[model]
+    for interp_mode in ("exact", "interp"):
+        try:
+            cl = build(inp, lenses, interp_mode, model, kwargs_fixed_cosmo=dict(stray))
+            o = observe(cl, cl.cosmo_instance(cl.param.args2kwargs(list(args_of(model, p)) + [mu_sne])[0]), za)
+            tolr = EXACT_TOL if interp_mode == "exact" else tol_interp
+            if max(tolr["ddt"], tolr["beta"]) > 0.05: continue
+            good = all((abs(o[k] - ref[k]) if k == "modulus" else abs(o[k] - ref[k]) / abs(ref[k])) <= tolr[k] for k in o)
+            rec.check(good, "C05:stray_fixed_key:%s" % model, "a key of kwargs_fixed_cosmo that the declared model does not use changes the distances",
+                      dict(short, mode=interp_mode, fixed=stray), o, ref)
+        except Exception as e:
+            rec.violation("C05:raises:stray_fixed_key", "hierArc raised with an unused key in kwargs_fixed_cosmo: %r" % (e,), dict(short, mode=interp_mode, fixed=stray))
+
 
 # ------------------------------------------------------------------ anchor redshift above every source redshift
 def gen_anchor(case):
@@ -547,6 +561,14 @@ def run_history(rec, case):
             b = mk(); fresh = dist(b, p2); lf = fscalar(b.likelihood(vec(p2)))
         except Exception as e:
             rec.violation("C05:raises:history", "raised %r" % (e,), dict(inp, interpolate=interp), traceback.format_exc(limit=3), "distances"); continue
+        # the same scan with ONE numpy vector updated in place between the calls (an optimiser / a manual scan re-using its buffer)
+        try:
+            c = mk(); buf = np.array(vec(p1), dtype=float); c.likelihood(buf); buf[j] = vec(p2)[j]; l2b = fscalar(c.likelihood(buf))
+            rec.check(l2b == lf, "C05:history_dependent:inplace_vector",
+                      "after an in-place update of the caller's numpy vector the likelihood is not the one of the current vector",
+                      dict(inp, interpolate=interp, inplace=True), l2b, lf)
+        except Exception as e:
+            rec.violation("C05:raises:history", "raised %r" % (e,), dict(inp, interpolate=interp, inplace=True), traceback.format_exc(limit=3), "likelihood")
         rec.check(second == fresh and l2 == lf, "C05:history_dependent",
                   "the distances / likelihood at p2 depend on the point evaluated before (a sampled cosmology must be rebuilt from the current vector)",
                   dict(inp, interpolate=interp), [second, l2], [fresh, lf])
